@@ -148,4 +148,30 @@ def sisStep [Transc α] [Add α] [Sub α] [Mul α] [Div α] [Neg α] [Zero α] [
     (cfg : SisCfg α) (s : SisState π α) (ev : SisEvent π α) : SisState π α :=
   sisStepWith resample cfg s ev
 
+/-- what `SIS::log()` hands to the logger inside `filtering_step()`: the predicted set and the corrected
+    set *after* the normalisation and *before* the resampling decision (the call sits between them) -/
+def sisLogged [Transc α] [Add α] [Sub α] [Zero α] [LT α] [DecidableLT α] [Inhabited α]
+    (cfg : SisCfg α) (s : SisState π α) (ev : SisEvent π α) : PSet π α × PSet π α :=
+  (sisPredict s ev, sisCorrect cfg s ev)
+
+/-- A `reset()` seen by `FilteringAlgorithm::filtering_recursion`: the step counter returns to 0 and
+    `initialization_step()` runs again — on the *existing* `pred_particle_` (the sets are not rebuilt).
+    The corrected set, both skip flags and the resampler's generator are carried into the new epoch. -/
+def sisReinit (init : PSet π α → PSet π α) (s : SisState π α) : SisState π α :=
+  { s with step := 0, pred := init s.pred, resampled := false, parents := [] }
+
+/-- one item of a filter's life: a filtering step, or a reset followed by re-initialisation (with the
+    initialisation model as it is at that time) -/
+inductive SisOp (π α : Type) where
+  | step (ev : SisEvent π α)
+  | reset (init : PSet π α → PSet π α)
+
+/-- a whole life: epochs separated by resets -/
+def sisRun [Transc α] [Add α] [Sub α] [Mul α] [Div α] [Neg α] [Zero α] [One α] [NatCast α]
+    [LT α] [DecidableLT α] [Inhabited α] [Inhabited π]
+    (rs : PSet π α → PSet π α → α → PSet π α × List Int) (cfg : SisCfg α) (s : SisState π α) (ops : List (SisOp π α)) : SisState π α :=
+  ops.foldl (fun st op => match op with
+    | .step ev => sisStepWith rs cfg st ev
+    | .reset init => sisReinit init st) s
+
 end BFL.PF
